@@ -3,14 +3,14 @@ import json
 import os
 import vlib
 
-PROPS = ['Rangers.Props.C07', 'Rangers.Props.C07Rlp', 'Rangers.Props.C07Conv', 'Rangers.Props.C07Secp', 'Rangers.Props.C07Addr', 'Rangers.Props.C07Fork', 'Rangers.Props.C07Oracle', 'Rangers.Props.C07Unsigned', 'Rangers.Props.C07Batch', 'Rangers.Props.C07Facts', 'Rangers.Props.C07Admit']
+PROPS = ['Rangers.Props.C07', 'Rangers.Props.C07Rlp', 'Rangers.Props.C07Conv', 'Rangers.Props.C07Secp', 'Rangers.Props.C07Addr', 'Rangers.Props.C07Fork', 'Rangers.Props.C07Oracle', 'Rangers.Props.C07Unsigned', 'Rangers.Props.C07Batch', 'Rangers.Props.C07Sign', 'Rangers.Props.C07Facts', 'Rangers.Props.C07Admit']
 DRIVERS = ['C07']
 META = dict(
     level='proof',
     technique='Lean 4 theorems about an executable model of VerifyTransaction (crypto primitives as parameters) '
               '+ differential correspondence against the real TxPool.VerifyTransaction / eth_tx code with crypto oracle fields',
     level_text='proof',
-    level_note='81 Lean theorems about the executable model of VerifyTransaction that the driver runs; crypto '
+    level_note='97 Lean theorems about the executable model of VerifyTransaction that the driver runs; crypto '
                'primitives are parameters (soundness ends in explicit collision / second-signature witnesses); '
                'two clauses are false of the code and proved partial with counterexamples (unprotected v=27/28 '
                'payloads, recovery-id alias of Sign) and recorded as known findings; one defect fixed '
@@ -52,7 +52,43 @@ def _n(ctx):
     return 400 if ctx.thorough() else 45
 
 
+_HOOKFILES = {'src/network/verif_c07_admit.go': 'network_verif_c07_admit.go.txt',
+              'src/core/verif_c07_admit.go': 'core_verif_c07_admit.go.txt'}
+
+
+class _Overlay:
+    """Hooks H11a/H11b: taken from the tree when it has them, otherwise the identical files kept under
+    harness/overlay/c07 are compiled into the packages with `go build -overlay` (nothing is written into
+    the tree under check)."""
+    def __init__(self, ctx):
+        self.ctx = ctx
+        self.saved = vlib.GOENV.get('GOFLAGS')
+        repo = os.path.realpath(ctx.repo)
+        self.missing = [f for f in _HOOKFILES if not os.path.exists(os.path.join(repo, f))]
+        self.repo = repo
+
+    def __enter__(self):
+        if self.missing:
+            ov = dict(Replace={os.path.join(self.repo, f): os.path.join(vlib.HARNESS, 'overlay', 'c07', _HOOKFILES[f])
+                               for f in self.missing})
+            ovp = os.path.join(self.ctx.work, 'c07-overlay.json')
+            json.dump(ov, open(ovp, 'w'))
+            vlib.GOENV['GOFLAGS'] = (self.saved or '') + ' -overlay=' + ovp
+        return self
+
+    def __exit__(self, *a):
+        if self.saved is None:
+            vlib.GOENV.pop('GOFLAGS', None)
+        else:
+            vlib.GOENV['GOFLAGS'] = self.saved
+
+
 def correspond(ctx):
+    with _Overlay(ctx):
+        return _correspond(ctx)
+
+
+def _correspond(ctx):
     c = vlib.correspond(ctx, 'c07', 'C07', ['n=%d' % _n(ctx)], timeout=1500)
     c['name'] = 'verify-transaction'
     viol = []
@@ -98,26 +134,8 @@ def correspond(ctx):
 def _admission(ctx, res):
     """Drive the real admission handlers (worker-connection batch handler, GameExecutor.write/runWrite)
     with mixed honest/forged batches; oracle by construction. Needs hooks H11a/H11b in the tree."""
-    # hooks H11a/H11b: taken from the tree when it has them (hooks/c07, later /repo main), otherwise the
-    # identical files kept under harness/overlay/c07 are compiled into the packages with `go build -overlay`
-    # (nothing is written into the tree under check)
-    hookfiles = {'src/network/verif_c07_admit.go': 'network_verif_c07_admit.go.txt',
-                 'src/core/verif_c07_admit.go': 'core_verif_c07_admit.go.txt'}
-    repo = os.path.realpath(ctx.repo)
-    missing = [f for f in hookfiles if not os.path.exists(os.path.join(repo, f))]
-    saved_flags = vlib.GOENV.get('GOFLAGS')
-    if missing:
-        ov = dict(Replace={os.path.join(repo, f): os.path.join(vlib.HARNESS, 'overlay', 'c07', hookfiles[f]) for f in missing})
-        ovp = os.path.join(ctx.work, 'c07-overlay.json')
-        json.dump(ov, open(ovp, 'w'))
-        vlib.GOENV['GOFLAGS'] = (saved_flags or '') + ' -overlay=' + ovp
-    try:
-        _admission_runs(ctx, res, overlay=bool(missing))
-    finally:
-        if saved_flags is None:
-            vlib.GOENV.pop('GOFLAGS', None)
-        else:
-            vlib.GOENV['GOFLAGS'] = saved_flags
+    with _Overlay(ctx) as ov:
+        _admission_runs(ctx, res, overlay=bool(ov.missing))
 
 
 def _admission_runs(ctx, res, overlay):
@@ -126,7 +144,7 @@ def _admission_runs(ctx, res, overlay):
         runs = [('c07admit', False, 3), ('c07admit_race', True, 1)]
     adm = dict(driven=True, hooks='overlay (harness/overlay/c07)' if overlay else 'in tree', runs=[])
     for outname, race, n in runs:
-        binp, log = vlib.go_build(ctx, vlib.HARNESS, './cmd/c07', outname, tags='verif c07admit', race=race)
+        binp, log = vlib.go_build(ctx, vlib.HARNESS, './cmd/c07', outname, tags='verif', race=race)
         if not binp:
             res['error'] = 'admission harness build failed: ' + log[-1500:]
             return
